@@ -1652,10 +1652,10 @@ def run_matrix(ctx: Ctx, use_model: bool):
     logging.disable(logging.CRITICAL)
     loop = vclock.new_loop()
     try:
-        combos = itertools.product([False, True], [True, False, (True, 1), (1, 1.0), (1, 1)] if ctx.thorough() or ctx.searching else [True, False, (True, 1)],
+        combos = itertools.product([False, True], [True, False, (True, 1), (1, 1.0), (1, 1)] if ctx.thorough() and not ctx.searching else [True, False, (True, 1)],
                                    [None, {}, {"a": "b"}, {"a": 1}],
                                    [None, {"a": "b"}, {"a": "c"}, {"a": True}],
-                                   [0, 300, 300.125, 301], [False, True] if ctx.thorough() or ctx.searching else [False])
+                                   [0, 300, 300.125, 301], [False, True] if ctx.thorough() and not ctx.searching else [False])
         for i, combo in enumerate(combos):
             w = loop.run_until_complete(run_matrix_world(ctx, loop, use_model, combo, 1000 + i))
             if w.observation_failed:
@@ -1725,7 +1725,7 @@ def search(ctx: Ctx, reason: str):
     # bounded: a failing quick run has to end within ~3 minutes; stop at the first new failing input
     run_matrix(ctx, False)
     if not [f for f in ctx.failures if f["signature"] != KNOWN_SIGNATURE]:
-        run_worlds(ctx, 300, False)
+        run_worlds(ctx, 8 * len(OPENERS), False)
 
 
 def replay(ctx: Ctx, rec: dict):
